@@ -36,6 +36,10 @@ type bfWorld struct {
 	recent []int
 	adds   int
 	evicts int
+	// the identifiers the oracle asks about after every Add: 0..universe-1 (grows with the requests seen)
+	universe int
+	// byte slices that were passed to Add / Contains: scribbled over afterwards (the filter must not keep them)
+	passed [][]byte
 }
 
 const bfUniverse = 6
@@ -55,7 +59,7 @@ func (w *bfWorld) inRecent(x int) bool {
 }
 
 func (w *bfWorld) checkAll(api string) {
-	for x := 0; x < bfUniverse; x++ {
+	for x := 0; x < w.universe; x++ {
 		if got, want := w.f.ContainsIdentifier(bfMk(x)), w.inRecent(x); got != want {
 			w.fail("last-n-distinct", fmt.Sprintf("after %s: Contains(%d)=%v, the last %d accepted identifiers are %v", api, x, got, w.size, w.recent),
 				w.sig(api, "contains-vs-last-n"))
@@ -69,15 +73,23 @@ func (w *bfWorld) exec(f []string) string {
 	switch f[0] {
 	case "add", "addb":
 		x, _ := strconv.Atoi(f[1])
+		if x >= w.universe && x < 1<<16 {
+			w.universe = x + 1
+		}
 		var added bool
 		if f[0] == "add" {
 			added = w.f.AddIdentifier(bfMk(x))
 		} else {
 			var id bfID
 			raw := bfMk(x)
-			id, added = w.f.Add(raw[:])
+			buf := append(make([]byte, 0, 64), raw[:]...)
+			id, added = w.f.Add(buf)
 			if id != bfMk(x) {
 				w.fail("last-n-distinct", "Add returned a different identifier", w.sig("Add", "identifier"))
+			}
+			// the caller's buffer stays the caller's: overwrite it (and its spare capacity) now
+			for i := range buf[:cap(buf)] {
+				buf[:cap(buf)][i] = 0xEE
 			}
 		}
 		want := !w.inRecent(x)
@@ -102,7 +114,11 @@ func (w *bfWorld) exec(f []string) string {
 			got = w.f.ContainsIdentifier(bfMk(x))
 		} else {
 			raw := bfMk(x)
-			got = w.f.Contains(raw[:])
+			buf := append(make([]byte, 0, 64), raw[:]...)
+			got = w.f.Contains(buf)
+			for i := range buf[:cap(buf)] {
+				buf[:cap(buf)][i] = 0xEE
+			}
 		}
 		if got != w.inRecent(x) {
 			w.fail("last-n-distinct", fmt.Sprintf("Contains(%d)=%v, recent=%v", x, got, w.recent), w.sig("Contains", "contains-vs-last-n"))
@@ -168,16 +184,33 @@ var bfContainer = container{
 	mk: func(a []string) world {
 		n, _ := strconv.Atoi(a[0])
 
-		return &bfWorld{f: bytesfilter.New(bfFromBytes, n), size: n}
+		return &bfWorld{f: bytesfilter.New(bfFromBytes, n), size: n, universe: bfUniverse}
 	},
 	gen: func(rng *hx.Rng, n int) []string {
 		size := rng.Range(1, 4)
-		if rng.Chance(1, 40) {
+		universe := bfUniverse
+		var ops []string
+		switch k := rng.Intn(120); {
+		case k < 3:
 			size = 0
+		case k < 23: // beyond the sizes of the package's test: the universe follows the size
+			size = rng.Range(5, 9)
+			universe = size + 3
+		case k < 27: // large filters: filled in order first, then a random history around the eviction point
+			size = hx.Pick(rng, []int{16, 33, 64, 100})
+			universe = size + 4
 		}
-		ops := []string{fmt.Sprintf("bf new %d", size)}
+		ops = append(ops, fmt.Sprintf("bf new %d", size))
+		if size >= 16 {
+			for x := 0; x < size-2; x++ {
+				ops = append(ops, fmt.Sprintf("bf add %d", x))
+			}
+		}
 		for i := 0; i < n; i++ {
-			x := rng.Intn(bfUniverse)
+			x := rng.Intn(universe)
+			if size >= 16 && rng.Chance(1, 2) { // mostly around the newest / the oldest identifiers
+				x = (size - 4 + rng.Intn(8) + i/4) % universe
+			}
 			switch k := rng.Intn(100); {
 			case k < 35:
 				ops = append(ops, fmt.Sprintf("bf add %d", x))
@@ -188,7 +221,7 @@ var bfContainer = container{
 			case k < 85:
 				ops = append(ops, fmt.Sprintf("bf hasb %d", x))
 			default:
-				ops = append(ops, fmt.Sprintf("bf all %d", bfUniverse))
+				ops = append(ops, fmt.Sprintf("bf all %d", universe))
 			}
 			if rng.Chance(1, 3) {
 				ops = append(ops, "bf state")
@@ -202,6 +235,10 @@ var bfContainer = container{
 		{"bf new 2", "bf add 1", "bf add 2", "bf add 1", "bf add 3", "bf has 1", "bf add 1", "bf all 6", "bf state"},
 		{"bf new 1", "bf addb 4", "bf hasb 4", "bf add 5", "bf has 4", "bf all 6"},
 		{"bf new 0", "bf has 1", "bf add 1", "bf all 6"},
+		// sizes beyond 2 (the append after the first eviction re-allocates with a capacity chosen by the runtime)
+		{"bf new 3", "bf add 0", "bf add 1", "bf add 2", "bf add 3", "bf add 4", "bf has 1", "bf all 6", "bf state", "bf add 5", "bf add 0", "bf all 6", "bf state"},
+		{"bf new 5", "bf addb 0", "bf addb 1", "bf addb 2", "bf addb 3", "bf addb 4", "bf addb 5", "bf addb 6", "bf hasb 0", "bf hasb 1", "bf hasb 2", "bf addb 7", "bf addb 8", "bf addb 9", "bf all 10", "bf state",
+			"bf addb 10", "bf addb 11", "bf addb 12", "bf all 13", "bf state"},
 	},
 	rule: "at least two evictions of the oldest identifier",
 }
